@@ -99,11 +99,19 @@ def gen_c14(seed):
     n = r.choice((2, 2, 3, 4))
     sharing = {"data_dict": r.random() < 0.7, "domains": r.random() < 0.5, "wrapped": r.random() < 0.4}
     conds = [gen_cond(r, i, kinds=("pinn", "pinn", "mean", "single", "adaptw", "periodic")) for i in range(n)]
+    rdk = rnd(seed, "data-kind")
+    if rdk.random() < 0.25:
+        # a data condition among them (its full-data-set mode switches the model to eval() for the loop)
+        j = rdk.randrange(n)
+        conds[j] = gen_cond(rdk, j, kinds=("data",))
+        conds[j]["full"] = rdk.random() < 0.7
     if sharing["data_dict"]:
         # the same user dictionary goes into every condition that takes data functions
         base = next((c["data_fns"] for c in conds if c.get("data_fns")), None) or {"f": ["x"]}
         k = 0
         for c in conds:
+            if c["kind"] == "data":
+                continue
             if c.get("data_fns") or r.random() < 0.6:
                 k += 1
                 old = list(c.get("data_fns") or {})
